@@ -1,3 +1,4 @@
+import Psa.MetricsCache
 import Psa.AdmitProps
 import Psa.AdmitCases
 import Psa.Metrics
@@ -124,6 +125,40 @@ theorem C18_counts_perm (c : Counters) (e₁ e₂ : List (List Str)) (h : e₁.P
 
 theorem C18_reset (c : Counters) (k : List Str) : (c.reset).get k = 0 := rfl
 
+/-- the label tuples the two cached counter vectors pre-populate (metrics.go `populateCache`) -/
+def evalToCache : List (List Str) :=
+  [[b!"allow", b!"privileged", b!"latest", b!"enforce", b!"create", b!"pod", b!""],
+   [b!"allow", b!"privileged", b!"latest", b!"enforce", b!"update", b!"pod", b!""]]
+def exemptToCache : List (List Str) :=
+  [[b!"create", b!"pod", b!""], [b!"update", b!"pod", b!""], [b!"create", b!"controller", b!""], [b!"update", b!"controller", b!""]]
+
+/-- **The handle cache is transparent**: the counter vector behind a cache of pre-created handles (`CachedInc`, `Reset` with
+    `populateCache`) shows, after every history of recordings and resets and for every label tuple — cached or not — exactly
+    what a plain counter map emptied by each reset shows. Whatever tuples are cached. -/
+theorem C18_cache_refines (toCache : List (List Str)) (ops : List MetricsCache.Op) (k : List Str) :
+    MetricsCache.count (MetricsCache.run toCache (MetricsCache.init toCache) ops) k = (MetricsCache.specRun [] ops).get k :=
+  MetricsCache.run_init toCache ops k
+
+/-- so after a reset a series restarts from zero and then counts every later recording exactly once -/
+theorem C18_cache_after_reset (toCache : List (List Str)) (before after : List (List Str)) (k : List Str) :
+    MetricsCache.count (MetricsCache.run toCache (MetricsCache.init toCache)
+      (before.map .inc ++ [.reset] ++ after.map .inc)) k = (after.filter (· = k)).length := by
+  rw [C18_cache_refines]
+  simp only [MetricsCache.specRun, List.foldl_append, List.foldl_cons, List.foldl_nil, MetricsCache.specStep]
+  have h : ∀ (c : Counters) (l : List (List Str)), List.foldl MetricsCache.specStep c (l.map .inc) = recordAll c l := by
+    intro c l
+    induction l generalizing c with
+    | nil => rfl
+    | cons x xs ih => simp only [List.map_cons, List.foldl_cons, MetricsCache.specStep, recordAll]; exact ih _
+  rw [h, h, recordAll_get]
+  simp [Counters.reset, Counters.get]
+
+/-- a cache that survived a reset would lose recordings (the shape of seeded change C18-b): record, reset, record shows 0 -/
+theorem C18_stale_cache_witness :
+    let k : List Str := [b!"create", b!"pod", b!""]
+    MetricsCache.count (MetricsCache.inc (MetricsCache.resetKeepingCache (MetricsCache.inc (MetricsCache.init [k]) k)) k) k = 0 ∧
+    (MetricsCache.specRun [] [.inc k, .reset, .inc k]).get k = 1 := MetricsCache.keepingCache_loses
+
 #print axioms C18_pod
 #print axioms C18_controller
 #print axioms C18_namespace
@@ -132,4 +167,7 @@ theorem C18_reset (c : Counters) (k : List Str) : (c.reset).get k = 0 := rfl
 #print axioms C18_counts
 #print axioms C18_counts_perm
 #print axioms C18_reset
+#print axioms C18_cache_refines
+#print axioms C18_cache_after_reset
+#print axioms C18_stale_cache_witness
 end PSA.Props
